@@ -37,7 +37,12 @@ for d in sorted(glob.glob(os.path.join(ROOT, "seeded", "*"))):
             title = title + ": " + (para("Change", "What") or notes[:300].replace("\n", " "))[:300]
         v = {}
         vp = os.path.join(VER, f"{sid}.json")
-        if os.path.exists(vp):
+        v2 = os.path.join(d, "verify.json")
+        if os.path.exists(v2):          # written by tools/harvest_seed.sh
+            v = {k_: x for k_, x in json.load(open(v2)).items() if k_ != "id"}
+        elif meta.get("verified"):
+            v = meta["verified"]
+        elif os.path.exists(vp):
             r = json.load(open(vp))
             v = {"applies_to_HEAD": bool(r["applies"]), "demo_exit_with_patch": r["demo_with_patch_exit"],
                  "demo_exit_without_patch": r["demo_without_patch_exit"], "existing_tests_with_patch": r["tests_with_patch"]}
